@@ -1,12 +1,16 @@
 """C12 - media round-trips unchanged and request media is parsed at most once."""
 PROP = 'C12'
-LEAN_MODULES = ['FalconModel.MediaCacheProofs']
-DRIVERS = ['mcdriver']
+LEAN_MODULES = ['FalconModel.MediaCacheProofs', 'FalconModel.JsonProofs']
+DRIVERS = ['mcdriver', 'jsdriver']
 THEOREMS = [
     'Mc.getMedia_spec', 'Mc.getMedia_cached_untouched', 'Mc.runCalls_spec',
     'Mc.deserialize_at_most_once', 'Mc.deserialize_exactly_once', 'Mc.stream_untouched_after_first_call',
     'Mc.empty_body_json_is_not_found', 'Mc.undecodable_is_malformed', 'Mc.default_only_for_not_found',
     'Mc.render_once_until_reassigned',
+    'Js.loads_dumps', 'Js.loadsBytes_dumpsBytes', 'Js.loads_ws_dumps_ws', 'Js.parseValue_dumps', 'Js.parseElems_dumps', 'Js.parsePairs_dumps',
+    'Js.scanString_escape', 'Js.parseNumber_dumpsInt', 'Js.mkDict_of_distinct', 'Js.dup_keys_do_not_round_trip', 'Js.loads_dumps_int_over_limit', 'Js.wf_int_iff',
+    'Js.handler_round_trip', 'Js.media_round_trip', 'Js.parse_length', 'Js.scanString_length', 'Js.parse_fuel', 'Js.scanString_fuel', 'Js.loads_fuel_irrelevant',
+    'Js.dumps_no_control',
 ]
 STATEMENTS = {
     'Mc.runCalls_spec': 'for every handler outcome and every sequence of get_media(default_when_empty given or not) calls on a fresh request: each call answers the same value / the same error; the caller default is returned only for media-not-found, only for that call, and is never cached',
@@ -14,9 +18,24 @@ STATEMENTS = {
     'Mc.stream_untouched_after_first_call': 'no stream operation happens after the first call',
     'Mc.undecodable_is_malformed': 'a non-empty body the JSON decoder rejects with ValueError or RecursionError is MediaMalformedError (400)',
     'Mc.render_once_until_reassigned': 'render_body serializes response media once; the cache is reset by assigning media again',
+    'Js.loadsBytes_dumpsBytes': 'for every document d of null/bool/int/str/list/dict-with-str-keys whose dict keys are pairwise distinct at every level and whose ints have at most 4300 digits: decoding the UTF-8 bytes of dumps(d) (CPython format, ensure_ascii=False) and parsing them with loads gives exactly d',
+    'Js.loads_dumps': 'the same at the text level: loads (dumps d) = some d',
+    'Js.loads_ws_dumps_ws': 'the same with any JSON whitespace before and after the text',
+    'Js.parseValue_dumps': 'generalisation used for the induction: for every continuation that does not start with a digit, ".", "e" or "E", parsing dumps(d) ++ rest yields (d, rest) for every fuel >= the text length',
+    'Js.scanString_escape': 'the string scanner applied to escape(s) followed by a quote and any rest returns (s, rest): every escape the encoder emits is undone',
+    'Js.parseNumber_dumpsInt': 'the number scanner reads the decimal representation of any int within the digit limit back as that int',
+    'Js.dup_keys_do_not_round_trip': 'a concrete assoc list with a repeated key reads back differently (last value, first position): distinct keys are necessary',
+    'Js.loads_dumps_int_over_limit': 'every int with more than 4300 digits is rejected by loads: the digit bound is necessary',
+    'Js.handler_round_trip': 'JSONHandler._deserialize (wrapper model with the Js decoder) applied to the bytes serialized for a well-formed document d answers ok d (in particular the body is never empty)',
+    'Js.media_round_trip': 'end to end in the model: on a request whose body is the serialization of a well-formed float-free document d, every get_media()/media call of every call sequence answers d, and the handler deserializes at most once',
+    'Js.parse_fuel': 'with fuel >= 2*length+1 (values) / 2*length+2 (element and pair loops) the answers of the three mutually recursive parsers do not depend on the fuel',
+    'Js.loads_fuel_irrelevant': 'loads equals the same parser run with any larger fuel: a rejection is never an artefact of the termination device',
+    'Js.parse_length': 'every successful parser call consumes at least one character',
+    'Js.dumps_no_control': 'the serialized text contains no character below U+0020 (all control characters, including newlines, are escaped)',
 }
 TRUSTED = [
-    "the stdlib json module (dumps with ensure_ascii=False / loads): losslessness on JSON-representable documents is validated differentially on generated documents, not proved",
+    "the stdlib json module for float values, and that the Lean model Js.dumps/Js.loads (proved lossless) is what json.dumps(ensure_ascii=False)/json.loads compute on float-free documents: tied by a byte-for-byte / value-for-value correspondence on generated documents and texts, not proved about the C code",
+    "Lean core's UTF-8 codec (List.utf8Encode / ByteArray.utf8Decode?, round trip proved in core) as the meaning of str.encode()/bytes.decode()",
     'urllib-level form encoding used by URLEncodedFormHandler (its parse side is C08)',
 ]
 ASSUMPTIONS = [
@@ -26,16 +45,23 @@ ASSUMPTIONS = [
 RULE = ('(a) caching contract: bodies (valid / truncated / wrong encoding / empty / deeply nested JSON, forms) x content types (params, +json, unknown) x call sequences of length 1-5 over '
         'get_media()/get_media(default_when_empty=D)/media, WSGI and ASGI through full apps with a counting handler and a counting body stream; '
         '(b) round trip: generated JSON documents and form mappings assigned to resp.media, the rendered body posted back under every chunking class; '
-        'non-trivial = body non-empty; distinct = distinct (stack, content type, body, call sequence)')
-PARTIAL = ('proved: the caching / error-caching / default contract of get_media, the JSON wrapper error mapping, the response render cache. '
-           'Not proved: that json.loads(json.dumps(d)) == d (stdlib, validated differentially); chunking independence is inherited from C07.')
+        '(c) JSON format: float-free documents (nesting <= 5, escape-worthy/astral/control characters, ints up to the 4300-digit limit) serialized by JSONHandler vs the model byte for byte; JSON texts '
+        '(documents re-spelled with arbitrary whitespace, short/\\uXXXX/surrogate-pair escapes, duplicate keys, -0; 0-2 single-character edits; injected invalid UTF-8; a fixed list of edge texts) '
+        'deserialized by JSONHandler vs the model (value, not-found or malformed; plus the bare loads); texts whose value has a float or a lone surrogate are skipped and counted; '
+        'non-trivial = body non-empty; distinct = distinct (stack, content type, body, call sequence) / distinct document / distinct text')
+PARTIAL = ('proved: the caching / error-caching / default contract of get_media, the JSON wrapper error mapping, the response render cache, and the JSON round trip '
+           'loads(dumps(d)) = d over a native model of the text format for float-free documents (distinct keys, ints <= 4300 digits). '
+           'Not proved: the round trip of float values (repr/float parsing; validated by the round-trip oracle only), documents nested beyond the interpreter recursion limit (a resource limit, '
+           'not modelled), the form (urlencoded) round trip (C08); chunking independence is inherited from C07.')
 JOBS = {'quick': 4, 'thorough': 16}
 LEVEL_TEXT = ('Lean 4 theorems over a model of Request.get_media (both request classes), the JSON handler wrapper and the response render cache: for every handler outcome and every call '
               'sequence the handler runs at most once, later calls return the same object or error without touching the stream, the default is returned only for media-not-found and never '
               'cached, undecodable bodies map to the 400-class error. The model is tied to the code by a differential correspondence through full WSGI/ASGI apps with counting handlers and '
-              'streams; an independent oracle checks the same contract plus the document/form round trip on generated documents. Partial: stdlib json losslessness is trusted.')
-LEVEL_NOTE = 'Trusted: Lean kernel; stdlib json/urllib; the harness. See PARTIAL in the evidence.'
-TECHNIQUE = 'Lean 4 invariant proof over call sequences + differential correspondence + round-trip oracle'
+              'streams; an independent oracle checks the same contract plus the document/form round trip on generated documents. The JSON text format of the default handler '
+              '(json.dumps(ensure_ascii=False).encode() / json.loads(data.decode())) has a native Lean model with loads(dumps d) = d proved by structural induction for float-free documents, '
+              'tied to JSONHandler.serialize/deserialize byte for byte. Partial: floats and interpreter resource limits are outside the model.')
+LEVEL_NOTE = 'Trusted: Lean kernel; stdlib json (floats; model = C code only by correspondence)/urllib; the harness. See PARTIAL in the evidence.'
+TECHNIQUE = 'Lean 4 invariant proof over call sequences + structural-induction round-trip proof over a JSON format model + differential correspondence + round-trip oracle'
 
 
 def run(ctx):
@@ -346,4 +372,73 @@ def run(ctx):
                 m = rnd.choice([None, 1, 2, 3]); r2.media = m; sess.op(f'rset {"none" if m is None else m}', 'ok')
             else:
                 d = r2.render_body(); sess.op('render', ('none' if d is None else f'some {list(d)}') + f' ser={CH.n}')
+    
+
+    # ------------------------------------------------------------ (c) the JSON text format of the default handler vs the Js model
+    import lib_json as LJ
+    from runner import hx
+    js = ctx.session('JSONHandler.serialize / deserialize = Js model (dumps / loads, byte level)', 'jsdriver')
+    jh = media.JSONHandler()
+    for ci in range(ctx.n(1200, 15000)):
+        doc = LJ.gen_doc_nf(rnd)
+        failed = None
+        try:
+            data = jh.serialize(doc, 'application/json')
+        except Exception as e:  # noqa
+            data = None; failed = f'serialize raised {type(e).__name__}: {e}'
+        if data is not None:
+            try:
+                back = jh.deserialize(io.BytesIO(data), 'application/json', len(data))
+                if not eq_doc(back, doc): failed = f'document came back as {back!r}'
+            except Exception as e:  # noqa
+                failed = f'deserialize raised {type(e).__name__}: {e}'
+        ctx.oracle('handler round trip: JSONHandler.deserialize(JSONHandler.serialize(d)) == d (float-free documents)', failed is None, failed, {'document': doc, 'body': data})
+        ctx.seen(('jsd', repr(doc)), True); ctx.count('js_dumps')
+        if data is not None:
+            js.case({'dumps': doc if len(repr(doc)) < 300 else repr(doc)[:300]})
+            js.op('dumps ' + LJ.enc_doc(doc), hx(data))
+
+    def real_des(b):
+        """what JSONHandler.deserialize answers for the body `b` in the driver's format: 'ok <doc>' | 'nf' | 'mal'; None = the value is outside the modelled document type"""
+        try:
+            v = jh.deserialize(io.BytesIO(b), 'application/json', len(b))
+        except errors.MediaNotFoundError:
+            return 'nf'
+        except errors.MediaMalformedError:
+            return 'mal'
+        except Exception as e:  # noqa
+            return 'EXC:' + type(e).__name__
+        try:
+            why = LJ.outside_reason(b.decode())
+        except ValueError:
+            why = None                   # the handler accepted a body that is not UTF-8 / not JSON: the model will disagree
+        if why:
+            ctx.count('js_des_outside_' + why); return None
+        try:
+            return 'ok ' + LJ.enc_doc(v)
+        except LJ.Outside:
+            return 'ok ?'
+    texts = []
+    if ctx.shard[0] == 0:
+        texts += [t.encode('utf-8', 'surrogatepass') for t in LJ.EDGE_TEXTS]
+    for ci in range(ctx.n(1600, 20000)):
+        t = LJ.render_text(rnd, LJ.gen_doc_nf(rnd))
+        r = rnd.random()
+        if r >= 0.4: t = LJ.edit_text(rnd, t)
+        if r >= 0.9: t = LJ.edit_text(rnd, t)
+        b = t.encode()
+        if rnd.random() < 0.05:
+            k = rnd.randrange(len(b) + 1); b = b[:k] + rnd.choice(LJ.BAD_UTF8) + b[k + rnd.randrange(2):]
+        texts.append(b)
+    texts.append(b'')
+    for b in texts:
+        e = real_des(b)
+        ctx.seen(('jsl', b), bool(b))
+        if e is None: continue
+        ctx.count('js_des_' + e.split(' ')[0])
+        js.case({'deserialize': b[:300]})
+        js.op('des ' + hx(b), e)
+        if e != 'nf':
+            js.op('loads ' + hx(b), 'none' if e == 'mal' else 'some' + e[2:])
+    js.finish()
     sess.finish()
